@@ -468,6 +468,182 @@ theorem nodeSeekLoop_spec (ha : ListLike oa Va absA) (hb : ListLike ob Vb absB) 
         refine ⟨n1, ?_, by simp [hfe]⟩
         rw [n2, hfe]; rfl
 
+theorem nodeAbs_length_le (ha : ListLike oa Va absA) (hb : ListLike ob Vb absB) {s : Node α β}
+    (hV : nodeV Va Vb absA absB s) : (nodeAbs absA absB s).length ≤ nodeFuel oa ob s := by
+  have h1 := ha.fuel _ hV.1.va
+  have h2 := hb.fuel _ hV.1.vb
+  unfold nodeAbs nodeFuel
+  split
+  · have := pm2_length_le s.lastT (seekA absA s) (seekB absB s)
+    have h3 := dropLt_length_le (s.lastT + 1 + s.penA) (absA s.a)
+    have h4 := dropLt_length_le (s.lastT + 1 + s.penB) (absB s.b)
+    simp only [List.length_cons, nodeFuture, seekA, seekB] at *
+    omega
+  · simp
+
+/-- a positioned node has emitted something -/
+theorem nodeV_started {s : Node α β} (hV : nodeV Va Vb absA absB s) (h : nodeAbs absA absB s ≠ []) :
+    s.lastT ≠ minT := by
+  intro hl
+  obtain ⟨hA, hB⟩ := hV.2 hl
+  apply h
+  unfold nodeAbs
+  cases s.lastIsA <;> simp [hA, hB]
+
+/-- **`node_refines_list`.**  `dedupSeriesIterator` over two list-like iterators is list-like:
+    its remaining samples are the current one followed by the penalty merge (`pm2`) of the two
+    sides' remaining samples. -/
+theorem node_listLike (ha : ListLike oa Va absA) (hb : ListLike ob Vb absB) (fixed : Bool) :
+    ListLike (nodeOps oa ob fixed) (nodeV Va Vb absA absB) (nodeAbs absA absB) where
+  lower := by
+    intro s hV x hx
+    unfold nodeAbs at hx
+    split at hx
+    · rename_i cur hcur
+      rcases List.mem_cons.mp hx with rfl | hx
+      · have hm := List.mem_of_mem_head? hcur
+        cases hl : s.lastIsA with
+        | true => rw [hl] at hm; exact ha.lower _ hV.1.va _ hm
+        | false => rw [hl] at hm; exact hb.lower _ hV.1.vb _ hm
+      · rcases pm2_mem hx with h | h
+        · exact ha.lower _ hV.1.va _ (mem_of_mem_dropLt h)
+        · exact hb.lower _ hV.1.vb _ (mem_of_mem_dropLt h)
+    · simp at hx
+  atS := by
+    intro s hV hne
+    obtain ⟨cur, hcur, habs⟩ := nodeAbs_cons hne
+    rw [habs]
+    simp only [nodeOps_atS, nodeAt, List.head?_cons]
+    cases hl : s.lastIsA with
+    | true =>
+      simp only [hl, if_true] at hcur ⊢
+      rw [ha.atS _ hV.1.va (by intro h; rw [h] at hcur; simp at hcur), hcur]
+    | false =>
+      simp only [hl, Bool.false_eq_true, if_false] at hcur ⊢
+      rw [hb.atS _ hV.1.vb (by intro h; rw [h] at hcur; simp at hcur), hcur]
+  atT := by
+    intro s hV hne
+    obtain ⟨cur, hcur, habs⟩ := nodeAbs_cons hne
+    have hsame := nodeV_same hV hne
+    rw [habs]
+    simp only [nodeOps_atT, nodeAtT, List.head?_cons, Option.map_some]
+    rw [← hsame]
+    cases hl : s.lastIsA with
+    | true =>
+      simp only [hl, if_true] at hcur ⊢
+      rw [ha.atT _ hV.1.va (by intro h; rw [h] at hcur; simp at hcur), hcur]; rfl
+    | false =>
+      simp only [hl, Bool.false_eq_true, if_false] at hcur ⊢
+      rw [hb.atT _ hV.1.vb (by intro h; rw [h] at hcur; simp at hcur), hcur]; rfl
+  seekV := by
+    intro s t hV hne
+    have hl := nodeV_started hV hne
+    have hlen := nodeAbs_length_le ha hb hV
+    cases fixed with
+    | true =>
+      simp only [nodeOps_seek_fixed, nodeSeekFixed, hl, if_false]
+      exact (nodeSeekLoop_spec ha hb t _ s hV hne (by omega)).1
+    | false =>
+      simp only [nodeOps_seek_orig, nodeSeekOrig]
+      exact (nodeSeekLoop_spec ha hb t _ s hV hne (by omega)).1
+  seekAbs := by
+    intro s t hV hne
+    have hl := nodeV_started hV hne
+    have hlen := nodeAbs_length_le ha hb hV
+    cases fixed with
+    | true =>
+      simp only [nodeOps_seek_fixed, nodeSeekFixed, hl, if_false]
+      exact (nodeSeekLoop_spec ha hb t _ s hV hne (by omega)).2.1
+    | false =>
+      simp only [nodeOps_seek_orig, nodeSeekOrig]
+      exact (nodeSeekLoop_spec ha hb t _ s hV hne (by omega)).2.1
+  seekOk := by
+    intro s t hV hne
+    have hl := nodeV_started hV hne
+    have hlen := nodeAbs_length_le ha hb hV
+    cases fixed with
+    | true =>
+      simp only [nodeOps_seek_fixed, nodeSeekFixed, hl, if_false]
+      exact (nodeSeekLoop_spec ha hb t _ s hV hne (by omega)).2.2
+    | false =>
+      simp only [nodeOps_seek_orig, nodeSeekOrig]
+      exact (nodeSeekLoop_spec ha hb t _ s hV hne (by omega)).2.2
+  nextV := by
+    intro s hV _
+    exact (nodeNext_spec ha hb hV.1).1
+  nextAbs := by
+    intro s hV hne
+    obtain ⟨cur, _, habs⟩ := nodeAbs_cons hne
+    rw [habs]
+    exact (nodeNext_spec ha hb hV.1).2.1
+  nextOk := by
+    intro s hV hne
+    obtain ⟨cur, _, habs⟩ := nodeAbs_cons hne
+    rw [habs]
+    exact (nodeNext_spec ha hb hV.1).2.2
+  adjustV := fun s v hV _ => (nodeAdjust_spec ha hb v hV).1
+  adjustAbs := fun s v hV _ => (nodeAdjust_spec ha hb v hV).2
+  bad := by
+    intro s hV
+    simp [hV.1.nbad, ha.bad _ hV.1.va, hb.bad _ hV.1.vb]
+  fuel := fun s hV => nodeAbs_length_le ha hb hV
+
+/-- `newDedupSeriesIterator(a, b)` over two fresh list-like iterators that will yield `La`, `Lb`
+    is a fresh list-like iterator (with the repaired `Seek`) that will yield `pm2 minT La Lb` -/
+theorem node_initLike (ha : ListLike oa Va absA) (hb : ListLike ob Vb absB) {a : α} {b : β}
+    {La Lb : List Sample} (ia : InitLike oa Va absA a La) (ib : InitLike ob Vb absB b Lb) :
+    InitLike (nodeOps oa ob true) (nodeV Va Vb absA absB) (nodeAbs absA absB) (nodeNew oa ob a b)
+      (pm2 minT La Lb) := by
+  have hW : NodeW Va Vb absA absB (nodeNew oa ob a b) :=
+    ⟨ia.nextV, ib.nextV, by simp only [nodeNew, ia.nextAbs]; exact ia.nextOk,
+      by simp only [nodeNew, ib.nextAbs]; exact ib.nextOk, Or.inl rfl, Int.le_refl 0, Int.le_refl 0, rfl⟩
+  have hfut : nodeFuture absA absB (nodeNew oa ob a b) = pm2 minT La Lb := by
+    simp only [nodeFuture, seekA, seekB, nodeNew, ia.nextAbs, ib.nextAbs, Int.add_zero]
+    rw [dropLt_eq_self (fun x hx => by have := ia.lower x (List.mem_of_mem_head? hx); omega),
+      dropLt_eq_self (fun x hx => by have := ib.lower x (List.mem_of_mem_head? hx); omega)]
+  obtain ⟨n1, n2, n3⟩ := nodeNext_spec ha hb hW
+  rw [hfut] at n2 n3
+  have hlow : ∀ x ∈ pm2 minT La Lb, minT < x.t := by
+    intro x hx
+    rcases pm2_mem hx with h | h
+    · exact ia.lower x h
+    · exact ib.lower x h
+  have hseek : ∀ t, nodeV Va Vb absA absB (nodeSeekFixed oa ob t (nodeNew oa ob a b)).1 ∧
+      nodeAbs absA absB (nodeSeekFixed oa ob t (nodeNew oa ob a b)).1 = dropLt t (pm2 minT La Lb) ∧
+      (nodeSeekFixed oa ob t (nodeNew oa ob a b)).2 = !(dropLt t (pm2 minT La Lb)).isEmpty := by
+    intro t
+    have hl : (nodeNew oa ob a b).lastT = minT := rfl
+    simp only [nodeSeekFixed, hl, if_true]
+    by_cases hok : (nodeNext oa ob (nodeNew oa ob a b)).2 = true
+    · simp only [hok, if_true]
+      have hne : nodeAbs absA absB (nodeNext oa ob (nodeNew oa ob a b)).1 ≠ [] := by
+        rw [n2]; intro h; rw [n3, h] at hok; simp at hok
+      have hlen := nodeAbs_length_le ha hb n1
+      have := nodeSeekLoop_spec ha hb t _ _ n1 hne (Nat.le_succ_of_le hlen)
+      rw [n2] at this
+      exact this
+    · simp only [hok, Bool.false_eq_true, if_false]
+      have he : pm2 minT La Lb = [] := by
+        cases h : pm2 minT La Lb with
+        | nil => rfl
+        | cons x l => rw [n3, h] at hok; simp at hok
+      refine ⟨n1, by rw [n2, he]; rfl, by simp [he]⟩
+  exact {
+    lower := hlow
+    nextV := n1
+    nextAbs := n2
+    nextOk := n3
+    seekV := fun t => (hseek t).1
+    seekAbs := fun t => (hseek t).2.1
+    seekOk := fun t => (hseek t).2.2
+    fuel := by
+      have h1 := ha.fuel _ ia.nextV
+      have h2 := hb.fuel _ ib.nextV
+      have h3 := pm2_length_le minT La Lb
+      rw [ia.nextAbs] at h1; rw [ib.nextAbs] at h2
+      simp only [nodeOps_fuel, nodeFuel, nodeNew]
+      omega }
+
 end node
 
 end Thanos.Dedup
